@@ -25,11 +25,11 @@ REQUIRED_BUCKETS = ['order:use-before-definition', 'order:definition-before-use'
                     'step:string', 'step:file', 'step:include', 'macro:scope-like-name', 'macro:evaluated-reference', 'macro:nested-macro', 'macro:literal',
                     'call:between-steps', 'call:unbound-macro-raises', 'const:unique-suffix', 'const:full-name', 'const:ambiguous', 'const:none-falls-to-macro',
                     'const:identity-in-container', 'const:invalid-name', 'const:duplicate', 'finalize:ok', 'finalize:unbound', 'finalize:unevaluated',
-                    'macro:used-twice-in-one-value', 'const:defined-between-parses', 'const:name-became-constant-after-use-as-macro', 'finalize:unbound-with-bound-prefix-macro', 'step:skip_unknown-enabled',
+                    'macro:used-twice-in-one-value', 'const:defined-between-parses', 'const:name-became-constant-after-use-as-macro', 'finalize:unbound-with-bound-prefix-macro', 'finalize:after-failed-query-of-unbound-macro', 'step:skip_unknown-enabled',
                     'history:clear_config-keeps-constants']
 ORACLE_COUNTERS = ['oracle_evals', 'consumer_calls', 'constant_lookups', 'finalize_checks']
 _S = {}
-MACROS = ['m0', 'm1', 'a/m2', 'a/b/m3', 'M0', 'a', 'a/b', 'LATEK']
+MACROS = ['m0', 'm1', 'a/m2', 'a/b/m3', 'M0', 'a', 'a/b', 'LATEK', 'a/A', 'x/y/B']   # the last two end in a component that may name a constant: still macros
 
 
 class Sentinel:
@@ -154,7 +154,7 @@ def iter_cases(ctx, rng, n):
         cands = ['q.LATEK'] + ['w2.' + c for c in consts]
         late.append([si, rng.choice(cands)])
     yield {'consts': consts, 'late_consts': late, 'steps': steps, 'finalize': rng.random() < 0.6, 'unevaluated': rng.random() < 0.15,
-           'bad_const': rng.choice([None, 'invalid', 'duplicate']), 'ambiguous_probe': rng.random() < 0.5}
+           'bad_const': rng.choice([None, 'invalid', 'duplicate']), 'ambiguous_probe': rng.random() < 0.5, 'query_unbound_first': rng.random() < 0.5}
 
 
 def freeze(t, consts):
@@ -385,6 +385,16 @@ def run_case(ctx, case):
     unbound = sorted({m for m in referenced if m not in table})
     if any(any(m.startswith(t + '/') for t in table) for m in unbound):
       ctx.bucket('finalize:unbound-with-bound-prefix-macro')
+    if case.get('query_unbound_first') and unbound:
+      # asking for a macro that was never bound (the usual "is it set?" probe) fails and must not make it count as bound
+      ctx.bucket('finalize:after-failed-query-of-unbound-macro')
+      for m in unbound:
+        try:
+          gin.query_parameter('%' + m)
+          if not any(m.startswith(t + '/') for t in table):
+            ctx.check(False, 'query-of-unbound-macro-answered', 'query_parameter(%%%s) answered although the macro was never bound' % m)
+        except ValueError:
+          ctx.count('oracle_evals')
     if case['unevaluated']:
       gin.parse_config('c5cons.q = @m0/gin.macro')
       ctx.bucket('finalize:unevaluated')
